@@ -1734,8 +1734,15 @@ m("C06", "comment-ignores-switch", ZP,
         expression = nodes.Substitution(node[4:-3], char_escape)''')
 m("C06", "question-comment-interpolated", ZP,
   '''        if node.startswith('<!--?'):
-            return nodes.Text('<!--' + node.lstrip('<!-?'))
+            return nodes.Text('<!--' + node[5:])
 ''', '')
+m("C06", "question-comment-strips-a-set", ZP,
+  "            return nodes.Text('<!--' + node[5:])",
+  "            return nodes.Text('<!--' + node.lstrip('<!-?'))")
+m("C06", "question-comment-removeprefix", ZP,
+  "            return nodes.Text('<!--' + node[5:])",
+  "            return nodes.Text('<!--' + node.removeprefix('<!--?'))",
+  expect="silent")
 m("C06", "switch-not-popped", ZP,
   "        self._switches.pop()\n        self._interpolation.pop()\n",
   "        self._switches.pop()\n")
